@@ -55,7 +55,7 @@ def main():
     out = sys.argv[1]
     jobs = int(sys.argv[sys.argv.index("--jobs") + 1]) if "--jobs" in sys.argv else 3
     only = set(sys.argv[sys.argv.index("--only") + 1].split(",")) if "--only" in sys.argv else None
-    ncpu = max(2, 14 // jobs)
+    ncpu = int(sys.argv[sys.argv.index("--ncpu") + 1]) if "--ncpu" in sys.argv else max(2, 14 // jobs)
     todo = []
     refactorings = "--refactorings" in sys.argv
     if refactorings:
